@@ -142,13 +142,14 @@ class ComponentsFileSystemFinder(BaseFinder):
     def _is_path_valid(self, path: str) -> bool:
         # Normalize patterns to regexes
         allowed_patterns = [
-            # Convert suffixes like `.html` to regex `\.html$`
-            re.compile(rf"\{p}$") if isinstance(p, str) else p
+            # Convert suffixes like `.html` to regex `\.html\Z`. The whole suffix is escaped, so that
+            # e.g. `.tar.gz` does not match `.tarXgz`, and `\Z` (unlike `$`) does not match before a final newline.
+            re.compile(re.escape(p) + r"\Z") if isinstance(p, str) else p
             for p in app_settings.STATIC_FILES_ALLOWED
         ]
         forbidden_patterns = [
-            # Convert suffixes like `.html` to regex `\.html$`
-            re.compile(rf"\{p}$") if isinstance(p, str) else p
+            # Convert suffixes like `.html` to regex `\.html\Z`
+            re.compile(re.escape(p) + r"\Z") if isinstance(p, str) else p
             for p in app_settings.STATIC_FILES_FORBIDDEN
         ]
         return any_regex_match(path, allowed_patterns) and no_regex_match(path, forbidden_patterns)
